@@ -50,6 +50,7 @@ func main() {
 	)
 	flag.Parse()
 	c07.RaceBuild = raceEnabled
+	core.RaceBuild = raceEnabled
 	p, ok := props()[*prop]
 	if !ok {
 		fmt.Fprintf(os.Stderr, "unknown property %q\n", *prop)
